@@ -3136,3 +3136,104 @@ def run_linked(lst, exc_code):
         same = False
     info.update(reread=y, eq=bool(y == o), same_canon=cy == co, rewrite_same=same, grown=grown)
     return out + [0, h63_list(0, cy), int(cy == co), grown, wf], info
+
+
+# ----------------------------------------------------------------------------- Stage 3 (4): filter effects (Psd/FilterFx.v)
+# fx desc: [version, [effect...]]; effect = [uuid bytes, version, rect (4), depth, max_channels, [channel...], extra|None]
+#          channel = [is_written, compression|None, data]; extra = [is_written, rect, compression, data]
+def coq_feffects(a):
+    zl = lambda x: coq_list(z, x)
+    ch = lambda c: "(mkFCh %s %s %s)" % (z(c[0]), coq_opt(z, c[1]), coq_bytes(c[2]))
+    ex = lambda x: "(mkFEx %s %s %s %s)" % (z(x[0]), zl(x[1]), z(x[2]), coq_bytes(x[3]))
+    fe = lambda e: "(mkFE %s %s %s %s %s %s %s)" % (coq_bytes(e[0]), z(e[1]), zl(e[2]), z(e[3]), z(e[4]), coq_list(ch, e[5]), coq_opt(ex, e[6]))
+    return "(%s, %s)" % (z(a[0]), coq_list(fe, a[1]))
+
+
+def c_feffects_d(a):
+    cz = lambda x: [x]
+    cl = lambda x: c_list(cz, list(x))
+    ch = lambda c: [c[0]] + c_opt(cz, c[1]) + c_bytes(c[2])
+    ex = lambda x: [x[0]] + cl(x[1]) + [x[2]] + c_bytes(x[3])
+    fe = lambda e: c_bytes(e[0]) + [e[1]] + cl(e[2]) + [e[3], e[4]] + c_list(ch, e[5]) + c_opt(ex, e[6])
+    return [a[0]] + c_list(fe, a[1])
+
+
+def obj_feffects(a):
+    from psd_tools.psd import filter_effects as FE
+
+    ch = lambda c: FE.FilterEffectChannel(c[0], c[1], bytes(c[2]))
+    ex = lambda x: None if x is None else FE.FilterEffectExtra(x[0], list(x[1]), x[2], bytes(x[3]))
+    fe = lambda e: FE.FilterEffect(bytes(e[0]).decode("ascii"), e[1], tuple(e[2]), e[3], e[4], [ch(c) for c in e[5]], ex(e[6]))
+    return FE.FilterEffects(version=a[0], items=[fe(e) for e in a[1]])
+
+
+def feffects_of_obj(o):
+    ch = lambda c: [c.is_written, c.compression, bytes(c.data)]
+    ex = lambda x: None if x is None else [x.is_written, list(x.rectangle), x.compression, bytes(x.data)]
+    fe = lambda e: [e.uuid.encode("ascii"), e.version, list(e.rectangle), e.depth, e.max_channels, [ch(c) for c in e.channels], ex(e.extra)]
+    return [o.version, [fe(e) for e in o]]
+
+
+def wf_feffects(a):
+    ch = lambda c: (len(c[2]) == 0) if c[1] is None else c[0] != 0
+    ex = lambda x: x is None or x[0] != 0 or (list(x[1]) == [0, 0, 0, 0] and x[2] == 0 and len(x[3]) == 0)
+    fe = lambda e: e[1] <= 1 and len(e[5]) == e[4] + 2 and all(ch(c) for c in e[5]) and ex(e[6])
+    return a[0] in (1, 2, 3) and all(fe(e) for e in a[1])
+
+
+def g_feffects(rng, wf=True):
+    i32 = lambda: rng.choice([-2 ** 31, -1, 0, 1, 2 ** 31 - 1, rng.randint(-2 ** 31, 2 ** 31 - 1)])
+    data = lambda: bytes(rng.randrange(256) for _ in range(rng.choice([0, 0, 1, 2, 3, 9, 40])))
+
+    def ch():
+        r = rng.random()
+        if r < 0.3:
+            c = [0, None, b""]
+        elif r < 0.45:
+            c = [rng.choice([1, 2 ** 32 - 1]), None, b""]
+        else:
+            c = [rng.choice([1, 1, 7, 2 ** 32 - 1]), rng.choice([0, 1, 65535]), data()]
+        if not wf and rng.random() < 0.3:
+            m = rng.randrange(3)
+            if m == 0:
+                c = [0, rng.choice([0, 1]), data()]
+            elif m == 1:
+                c = [1, None, bytes([1, 2, 3])]
+            else:
+                c = [0, None, bytes([5])]
+        return c
+
+    def ex():
+        r = rng.random()
+        if r < 0.4:
+            return None
+        if r < 0.6:
+            x = [0, [0, 0, 0, 0], 0, b""]
+        else:
+            x = [rng.choice([1, 1, 2, 255]), [i32() for _ in range(4)], rng.choice([0, 1, 65535]), data()]
+        if not wf and rng.random() < 0.3:
+            x = [0, [i32() for _ in range(4)], rng.choice([0, 3]), data()]
+        return x
+
+    def fe():
+        n = rng.choice([0, 1, 3, 4, 25])
+        e = [bytes(rng.choice(b"0123456789abcdef-") for _ in range(rng.choice([0, 1, 36, 255]) if rng.random() < 0.85 else 36)),
+             rng.choice([0, 1, 1]), [i32() for _ in range(4)], rng.choice([8, 16, 32, 0, 2 ** 32 - 1]), n, [ch() for _ in range(n + 2)], ex()]
+        if not wf and rng.random() < 0.4:
+            m = rng.randrange(4)
+            if m == 0:
+                e[5] = e[5][:-1]
+            elif m == 1:
+                e[5] = e[5] + [ch()]
+            elif m == 2:
+                e[1] = rng.choice([2, 2 ** 32 - 1])
+            else:
+                e[4] = rng.choice([2 ** 32 - 1, 2 ** 32 - 2, n + 1])
+        return e
+
+    v = rng.choice([1, 2, 3]) if (wf or rng.random() < 0.8) else rng.choice([0, 4])
+    return [v, [fe() for _ in range(rng.choice([0, 1, 1, 2, 3]))]]
+
+
+def run_feffects(a, exc_code):
+    return run_payload(obj_feffects, lambda o: c_feffects_d(feffects_of_obj(o)), a, {}, {}, wf_feffects(a), exc_code)
